@@ -436,3 +436,26 @@ package webdav
 //@   ensures S4: r.Method == "PROPFIND" ==> wstatus(w) == 207 || wstatus(w) == 400
 //@   ensures S5: r.Method == "OPTIONS" ==> wstatus(w) == 204
 //@   loop 1 invariant I1: fresh(caps) && wstatus(w) == 0
+
+//@ -- ---------------------------------------------------------------------------------------
+//@ -- The PropFindFunc literals (C11 / C13): each satisfies the clauses assumed for calls through a PropFindFunc value
+//@ -- (specs: funcvalue:internal.PropFindFunc). Their preconditions speak about the captured variables, which hold
+//@ -- where the literal is created (precondition R1 of the creating function).
+//@ func webdav.(*backend).propFindFile$1(raw) (val, err)
+//@   requires C1: *fi != nil
+//@   allocates
+//@   ensures V1: mutations == old(mutations) && epCalls == old(epCalls) && epCode == old(epCode) && epVal == old(epVal)
+//@   ensures V2: err == nil
+//@ func webdav.servePrincipalPropfind$1(raw) (val, err)
+//@   allocates
+//@   ensures V1: mutations == old(mutations) && epCalls == old(epCalls) && epCode == old(epCode) && epVal == old(epVal)
+//@   ensures V2: err == nil
+//@ func webdav.servePrincipalPropfind$2(raw) (val, err)
+//@   requires C1: *options != nil
+//@   allocates
+//@   ensures V1: mutations == old(mutations) && epCalls == old(epCalls) && epCode == old(epCode) && epVal == old(epVal)
+//@   ensures V2: err == nil
+//@ func webdav.servePrincipalPropfind$3(raw) (val, err)
+//@   allocates
+//@   ensures V1: mutations == old(mutations) && epCalls == old(epCalls) && epCode == old(epCode) && epVal == old(epVal)
+//@   ensures V2: err == nil
